@@ -177,6 +177,8 @@ func (m *cmodel) eval1(c *TermCtx, t *Term) *Term {
 			return nil
 		}
 		r = c.FPToSBV(args[0], t.p1)
+	case "str.isbytes":
+		r = c.True()
 	case "str.++":
 		r = c.StrConcat(args[0], args[1])
 	case "str.len":
